@@ -113,6 +113,13 @@ impl AEADBodyCodec {
     }
 
     pub fn encode_packet(&mut self, mut src: BytesMut, dst: &mut BytesMut, session: &mut dyn Session) -> Result<(), aead::Error> {
+        // one chunk per datagram: a datagram that does not fit into a chunk (with the largest padding) cannot be
+        // carried and is dropped whole rather than cut short
+        const MAX_PADDING: usize = 64;
+        if src.remaining() > self.payload_limit - self.auth.cipher.tag_size() - self.chunk.size_bytes() - MAX_PADDING {
+            log::warn!("[udp] drop oversize packet; len={}", src.remaining());
+            return Ok(());
+        }
         self.encode_chunk(&mut src, dst, session)
     }
 
